@@ -52,7 +52,7 @@ REAL_VS_STUB = {
                                 'warnings.showwarning', 'all user callbacks', 'GC timing'],
 }
 EXPECTED_PROBES = ('cb:is_leaf', 'cb:flatten_func', 'cb:unflatten_func', 'cb:map_fn', 'cb:key.__hash__', 'cb:key.__lt__',
-                   'cb:meta.__ne__', 'cb:meta.__repr__', 'cb:showwarning', 'cb:meta.__getattr__', 't8:registration-failed-in-hook', 't9:completed', 't9:refused', 't10:observations', 't11:operations', 't3:pairing-op',
+                   'cb:meta.__ne__', 'cb:meta.__repr__', 'cb:showwarning', 'cb:meta.__getattr__', 't8:registration-failed-in-hook', 't9:completed', 't9:refused', 't10:observations', 't11:operations', 'stress:preemptive-run', 't3:pairing-op',
                    'lock:registry:acquire', 'lock:registry:contended', 'switch-inside-callback')
 # 'callback-entered-with-engine-lock-held' is reported as a counter; on a correct tree it stays 0 (it was 30 569 per
 # quick run before fix 414fcff)
@@ -86,6 +86,8 @@ def jobs(tier, seed, flavours):
                     yield {'i': i, 'seed': seed, 'tpl': tpl, 'script': [[1, a], [0, b], [2, 100000], [1, 100000]]}
         if 'asan' in flavours and i % 20 == 0:
             yield {'i': i, 'seed': seed, 'tpl': tpl, 'flavour': 'asan'}
+        if i % 300 == 7:
+            yield {'i': i, 'seed': seed, 'tpl': 'stress'}  # the preemptive backstop (see run_stress)
         i += 1
 
 
@@ -112,7 +114,67 @@ def engine_registry_model():
     return out
 
 
+def run_stress(job, io):
+    """BACKSTOP, not the deciding step: real threads under the interpreter's own preemptive scheduler (switch interval 1 us) for a
+    fraction of a second -- flatteners || a registrar of unrelated fresh classes.  The simulator's interleaving granularity is
+    complete only as long as the engine never gives up the GIL by itself; a change that makes it do so opens windows no
+    callback-level schedule can reach.  This job cannot choose or replay a schedule; it only notices that the run does not come
+    back (the pool's watchdog reports a hang) or that an operation's result differs from its solo result.  On a tree where the
+    property holds neither can happen under any schedule, so it cannot raise a false alarm."""
+    violations = []
+    io.progress({'site': 'stress', 'tape': None})
+    cls_ = U.CA
+    f = U.Funcs(cls_, 1, 0)
+    optree.register_pytree_node(cls_, f.flatten, f.unflatten, namespace='stress-tree')
+    try:
+        tree = [{'b': U.Leaf(1), 'a': (U.Leaf(2), U.CA([U.Leaf(3), U.Leaf(4)], 0))}, U.NT1(U.Leaf(5), [U.Leaf(6)])]
+        solo = optree.tree_flatten(tree, namespace='stress-tree')
+        solo_map = optree.tree_map(lambda x, y: x, tree, tree, namespace='stress-tree')
+        stop = threading.Event()
+        bad = []
+        old_si = sys.getswitchinterval()
+        sys.setswitchinterval(1e-6)
+
+        def flattener():
+            n = 0
+            while not stop.is_set() and n < 4000:
+                n += 1
+                got = optree.tree_flatten(tree, namespace='stress-tree')
+                if got[0] != solo[0] or got[1] != solo[1]:
+                    bad.append('flatten differs from its solo result')
+                    return
+                if n % 7 == 0 and same(optree.tree_map(lambda x, y: x, tree, tree, namespace='stress-tree'), solo_map):
+                    bad.append('tree_map differs from its solo result')
+                    return
+
+        def registrar():
+            n = 0
+            while not stop.is_set() and n < 1500:
+                n += 1
+                c = type('StressC%d' % n, (), {})
+                optree.register_pytree_node(c, lambda o: ((), None), lambda m, ch: None, namespace='stress-reg')
+                optree.unregister_pytree_node(c, namespace='stress-reg')
+
+        ths = [threading.Thread(target=flattener, daemon=True) for _ in range(3)] + [threading.Thread(target=registrar, daemon=True)]
+        for t in ths:
+            t.start()
+        for t in ths:
+            t.join()  # a deadlock never comes back: the pool's watchdog ends the child and reports a hang
+        sys.setswitchinterval(old_si)
+        for b in bad[:1]:
+            violations.append({'cls': 'not-sequential', 'site': 'stress', 'msg': b + ' (real threads, preemptive; not replayable as a schedule)'})
+    finally:
+        try:
+            optree.unregister_pytree_node(cls_, namespace='stress-tree')
+        except Exception:  # noqa: BLE001
+            pass
+    return {'digest': 'stress', 'violations': violations, 'keys': ['stress'], 'steps': 1, 'probes': {'stress:preemptive-run': 1},
+            'faults_cfg': {}, 'faults_fired': {}, 'sample': None, 'extra': {'preemptive_stress_runs': 1}}
+
+
 def run_job(job, io):
+    if job.get('tpl') == 'stress':
+        return run_stress(job, io)
     tape = Tape(replay=job['tape']) if 'tape' in job else Tape(seed=derive_seed(job.get('seed', 0), PROPERTY, job['tpl'], job['i']))
     tpl = job['tpl']
     sim = Sim(tape, trace_prefix=PKG_PREFIX, max_steps=30000)
